@@ -78,7 +78,7 @@ Definition agrees (c : case) : bool :=
        end)
       && (negb (refused st) || negb (c_effect c))
       && match c_listing c, rt_filter r with
-         | Some shown, Some p => same_set shown (listing_of (c_auth c) p (c_all c))
+         | Some shown, Some f => same_set shown (listing_of (c_auth c) f (c_all c))
          | Some _, None => false
          | None, _ => true
          end
@@ -97,7 +97,7 @@ Definition c13_ok (c : case) : bool :=
                | _ => refused st || forallb (gate_ok a (c_req c)) (rt_gates r)
                end)
          && match c_listing c with
-            | Some shown => forallb (fun h => auth_allows a CaRead (Some h)) shown
+            | Some shown => same_set shown (readable a CaRead (c_all c))     (* exactly the CAs the caller may read *)
             | None => true
             end
      | None =>
